@@ -150,12 +150,14 @@ theorem cmdExtractUnused_good (env : Env) (hm : NoAb env) (args : List Bytes) :
     | exact (hm _ _ (by assumption)).elim
     | split | dsimp only)
 
-theorem extractLoop_good (dest : Bytes) (ctxDir : Nat) (data : Media) (l : List Entry)
-    (files : List (Bytes × Bytes)) : Good (extractLoop dest ctxDir data l files) := by
+theorem extractLoop_good (env : Env) (dest : Bytes) (ctxDir : Nat) (data : Media) (l : List Entry)
+    (files : List (Bytes × Bytes)) : Good (extractLoop env dest ctxDir data l files) := by
   induction l generalizing files with
   | nil => simp only [extractLoop]; exact Good_true _
   | cons e rest ih =>
     simp only [extractLoop]
+    split
+    · exact Good_false _ rfl
     split
     · exact Good_threw _
     · exact ih _
@@ -165,7 +167,7 @@ theorem cmdExtractFiles_good (env : Env) (hm : NoAb env) (args : List Bytes) :
   have hm' := mount_na env hm
   unfold cmdExtractFiles
   repeat' (first
-    | exact Good_failErr | exact Good_threw _ | exact extractLoop_good _ _ _ _ _
+    | exact Good_failErr | exact Good_threw _ | exact extractLoop_good _ _ _ _ _ _
     | exact (hm' _ _ (by assumption)).elim
     | split | dsimp only)
 
